@@ -370,6 +370,30 @@ func init() {
 		}
 		return r
 	}))
+	reg("slices.Delete", pure(func(e *Engine, a []Value) Value {
+		sl, _ := a[0].(*SliceVal)
+		i, j := constInt(a[1], "slices.Delete i"), constInt(a[2], "slices.Delete j")
+		if sl == nil || i < 0 || j > sl.Len || i > j {
+			e.goPanicf("slices.Delete: index out of range")
+		}
+		var vals []Value
+		for k := 0; k < sl.Len; k++ {
+			if k >= i && k < j {
+				continue
+			}
+			vals = append(vals, load(sl.Arr.Elems[sl.Off+k]))
+		}
+		et := sl.Arr.T.(*types.Array).Elem()
+		return e.mkSlice(et, vals)
+	}))
+	reg("slices.ContainsFunc", func(e *Engine, fn *ssa.Function, a []Value) Value {
+		r := tFalse
+		for _, l := range sliceElems(a[0]) {
+			v := e.applyValue(&frame{fn: fn}, nil, a[1], []Value{load(l)})
+			r = Or(r, v.(*T))
+		}
+		return r
+	})
 	reg("slices.Reverse", func(e *Engine, fn *ssa.Function, a []Value) Value {
 		e.effect("reverse")
 		x := sliceElems(a[0])
